@@ -400,7 +400,7 @@ def work_mirror(bins, cases):
 def run(ctx):
     quick = ctx.tier == "quick"
     nshards = 32
-    nstarts = 280 if quick else 3000
+    nstarts = 280 if quick else 10000
     per = 6 if quick else 10
     res = core.pmap(work, [(ctx.bins, "%s/%d/%d" % (ctx.prop, ctx.seed, i), nstarts, per) for i in range(nshards)])
     mirror = []
@@ -416,7 +416,7 @@ def run(ctx):
     # mirror a sample on the real binary
     rng = ctx.sub_rng("mirror")
     cases = []
-    for _ in range(150 if quick else 3000):
+    for _ in range(150 if quick else 10000):
         base_argv, stdin = gen_start(rng)
         fs = gen_flagset(rng, dict(core=[("var", "Major"), ("var", "Minor"), ("var", "Patch")], extra_core=[("var", "Epoch"), ("var", "PreRelease")], build=[]))
         cases.append((base_argv + [t for g in fs.groups for t in g], stdin))
